@@ -214,7 +214,9 @@ def const_check(e, kinds, consts):
     if k == "int":
         return e[1]
     if k == "var":
-        return consts[e[1]] if kinds[e[1]] == "int" else None
+        # an int, or a named signal whose value is a compile-time constant (the compiler's constant
+        # propagation sees through names)
+        return consts[e[1]] if kinds[e[1]] in ("int", "sig") else None
     if k == "sel":
         return None
     subs = [const_check(x, kinds, consts) for x in e[1:] if isinstance(x, tuple)]
@@ -264,7 +266,7 @@ def program_safe(decls):
             else:
                 v = const_check(d[2], kinds, consts)
                 kinds.append(d[0])
-                consts.append(v if d[0] == "int" else None)
+                consts.append(v)
     except Unsafe:
         return False
     return True
